@@ -9,8 +9,10 @@ Local Open Scope N_scope.
 
 Lemma lxor_cancel_r a b c : N.lxor a c = N.lxor b c -> a = b.
 Proof.
-  intro H. rewrite <- (N.lxor_0_r a), <- (N.lxor_0_r b), <- (N.lxor_nilpotent c).
-  now rewrite !N.lxor_assoc, H.
+  intro H.
+  assert (Ea : a = N.lxor (N.lxor a c) c) by now rewrite N.lxor_assoc, N.lxor_nilpotent, N.lxor_0_r.
+  assert (Eb : b = N.lxor (N.lxor b c) c) by now rewrite N.lxor_assoc, N.lxor_nilpotent, N.lxor_0_r.
+  rewrite Ea, Eb, H. reflexivity.
 Qed.
 
 Lemma lxor_cancel_l a b c : N.lxor c a = N.lxor c b -> a = b.
